@@ -847,7 +847,12 @@ macro_rules! ubig_float_conversions {
                 if exp >= 0 {
                     result <<= exp as usize;
                 } else {
-                    result >>= (-exp) as usize;
+                    // the float is an integer only if no non-zero bits are shifted out
+                    let shift = (-exp) as usize;
+                    if result.trailing_zeros().map_or(false, |zeros| zeros < shift) {
+                        return Err(ConversionError::LossOfPrecision);
+                    }
+                    result >>= shift;
                 }
                 Ok(result)
             }
@@ -883,7 +888,12 @@ macro_rules! ibig_float_conversions {
                 if exp >= 0 {
                     result <<= exp as usize;
                 } else {
-                    result >>= (-exp) as usize;
+                    // the float is an integer only if no non-zero bits are shifted out
+                    let shift = (-exp) as usize;
+                    if result.trailing_zeros().map_or(false, |zeros| zeros < shift) {
+                        return Err(ConversionError::LossOfPrecision);
+                    }
+                    result >>= shift;
                 }
                 Ok(result)
             }
